@@ -158,7 +158,10 @@ CHECKS = {
             "layout flag and no self.X in the slot of another parameter X (P4), and backward rebuilds the operator from "
             "the saved representation slice (P6); every hand-written _bilinear_derivative (17 return sites in 14 classes) "
             "returns its segments - one gradient per tensor argument, the sub-operator's tuple per operator argument - in "
-            "the order in which the constructor record flattens the representation (P5). PyTorch checks tuple length only on executed paths and the tests set "
+            "the order in which the constructor record flattens the representation (P5); the autograd default "
+            "re-expands the gradients of the filtered differentiable arguments to one entry per representation "
+            "element in order (P7); in product-structured operators (ConstantMul, Interpolated) each hand-written "
+            "gradient depends, by flow-sensitive value dependence, on every other factor (P8). PyTorch checks tuple length only on executed paths and the tests set "
             "requires_grad on everything, so misaligned indices / shifted prefixes on requires_grad subsets are "
             "invisible to them. NOT decided: gradient VALUES, swaps among same-kind tensor slots.",
             TRUST, "DESIGN.md section 3, C07"),
